@@ -65,7 +65,8 @@ def op_class(op: str) -> str:
     if op in ("top_k", "sort_kv"):
         return "multi-result-tuple"
     if op.startswith("cond"):
-        return {"cond": "cond", "cond_int": "cond-int-output", "cond_multi": "cond-multi-output"}[op]
+        return {"cond": "cond", "cond_int": "cond-int-output", "cond_multi": "cond-multi-output",
+                "cond_fwd": "cond-output-forwarded-from-operand"}[op]
     if op.startswith("call"):
         return "call-" + op.split("_", 1)[1]
     if op in ("gt", "lt", "ge", "and", "or", "xor", "not", "where", "select", "i_add", "i_addlit", "i_mullit",
@@ -80,6 +81,27 @@ def op_class(op: str) -> str:
               "lax_dot_general", "vdot"):
         return "contract"
     return "shape"
+
+
+def node_class(nd) -> str:
+    """``op_class`` refined by structure: a cond all of whose branches return the same operand unchanged is
+    simplified by JAX (input-to-output forwarding) into a cond_p equation with no outputs at all."""
+    op = nd["op"]
+    if op.startswith("cond"):
+        t, f = nd["p"]["t"], nd["p"]["f"]
+        if len(t["ret"]) == 1 and t["ret"] == f["ret"] and t["ret"][0] < len(t["ins"]):
+            return "cond-output-forwarded-from-operand"
+    return op_class(op)
+
+
+def all_classes(body):
+    out = []
+    for nd in body["nodes"]:
+        out.append(node_class(nd))
+        for key in ("t", "f", "body"):
+            if key in nd["p"]:
+                out += all_classes(nd["p"][key])
+    return out
 
 
 # --------------------------------------------------------------------------
@@ -581,8 +603,10 @@ class _Body:
             kind = "like"
         elif kind_r < 0.9:
             kind = "int"
-        else:
+        elif kind_r < 0.95:
             kind = "multi" if self.afo else "scalar"
+        else:
+            kind = "fwd" if self.afo else "like"
         like = int(self.rng.integers(len(fops)))
         like_pos = ops.index(fops[like])
         ins = [(v["dt"], v["sh"], v["sz"]) for v in ops]
@@ -599,6 +623,8 @@ class _Body:
             return self.add("cond", allin, p, F, fops[like]["sh"], sz)
         if kind == "int":
             return self.add("cond_int", allin, p, I, (), True)
+        if kind == "fwd":
+            return self.add("cond_fwd", allin, p, F, fops[like]["sh"], fops[like]["sz"])
         return self.add("cond_multi", allin, p, F, fops[like]["sh"], sz)
 
     def g_call(self):
@@ -658,6 +684,7 @@ def gen_body(rng, ins, n_nodes, depth, allow_fail_ops, want="free", like_pos=0, 
           "like"   ret = float value with the shape of input ``like_pos``
           "int"    ret = one i[] value
           "multi"  ret = [f like input like_pos, f[]]
+          "fwd"    ret = input like_pos itself, unchanged (in both branches: JAX forwards it)
           "anyf"   ret = any float value;  "anyf2": two float values
     """
     g = _Body(rng, ins, depth, allow_fail_ops)
@@ -686,8 +713,12 @@ def gen_body(rng, ins, n_nodes, depth, allow_fail_ops, want="free", like_pos=0, 
         last_f = [g.add("i2f", [v0], {}, F, (2,), True)]
     fv = last_f[-1]
 
+    n_in = len(g.ins)
+
     def scalar_of(v):
         if v["sh"] == ():
+            if v["id"] < n_in:  # never hand an operand back unchanged (JAX would forward it; that is kind "fwd")
+                return g.add("add_lit", [v], {"c": 0.5}, F, (), v["sz"])
             return v
         op = str(rng.choice(["sum", "mean", "max"]))
         return g.add(op, [v], {"axis": None, "keep": False}, F, (), v["sz"])
@@ -706,10 +737,15 @@ def gen_body(rng, ins, n_nodes, depth, allow_fail_ops, want="free", like_pos=0, 
             return g.spec([r["id"]])
         s2 = scalar_of(last_f[0]) if last_f[0]["id"] != fv["id"] else s
         return g.spec([r["id"], s2["id"]])
+    if want == "fwd":
+        return g.spec([like_pos])
     if want == "int":
         iv = [v for v in g.vals if v["dt"] == I and v["sh"] == ()]
         if iv:
-            return g.spec([iv[-1]["id"]])
+            r = iv[-1]
+            if r["id"] < n_in:
+                r = g.add("i_addlit", [r], {"c": 1}, I, (), True)
+            return g.spec([r["id"]])
         arr = [v for v in g.vals if v["dt"] == F and len(v["sh"]) >= 1]
         if arr:
             r = g.add("argmax", [arr[-1]], {"axis": None}, I, (), True)
